@@ -32,6 +32,7 @@ RULE += (' Also: lenient keys equal to any foreign object.')
 RULE += (' Also: key comparisons that fail once; keys not equal to themselves (one shared NaN object / a fresh NaN per call).')
 RULE += (' Also: the consumer drops the groupby object and keeps group handles.')
 RULE += (' Also: class sources without aclose.')
+RULE += (' Also: sources that set themselves up in __aiter__ and re-iterables handing out a separate iterator.')
 ASSUMPTIONS = ["itertools.groupby of the running interpreter is the reference", "keys with reflexive equality only"]
 EXHAUSTIVE_SUBSPACES = "all operation sequences starting with 'adv' of length <= 5 (thorough: 6) over {adv, g-1, g-2, g0} on 12 fixed inputs"
 EXHAUSTIVE = {"quick": False, "thorough": False}
@@ -64,7 +65,8 @@ def cases(tier, seed, shard, nshards):
         if rng.random() < 0.15 and len(ops) > 2:
             ops.insert(rng.randrange(1, len(ops)), "drop")
         case = {"keys": keys, "key": rng.choice([None, "half", "ahalf", "aident", "noneodd", "anoneodd", "tuple", "onesided", "aonesided", "lenient", "alenient", "samenan", "asamenan", "freshnan", "afreshnan"]), "ops": ops,
-                "flav": rng.choice(["list", "async_gen", "async_class", "sync_iter", "async_class_bare"]), "susp": rng.choice([0, 0, 1])}
+                # (... a source that sets itself up when asked for its iterator; a re-iterable that hands out a separate iterator)
+                "flav": rng.choice(["list", "async_gen", "async_class", "sync_iter", "async_class_bare", "async_class_lazy", "async_iterable"]), "susp": rng.choice([0, 0, 1])}
         if rng.random() < 0.06:
             # some items ARE None; grouped by equality (no key) or by a key that can take them
             case["keys"] = [k if rng.random() < 0.55 else -1 for k in keys]
